@@ -393,14 +393,16 @@ def _minmax_parts(e):
     return a, b, rest, c
 
 
-def check_plot_diagrams(project: Project, rep):
+def check_plot_diagrams(project: Project, rep0):
+    from ..core.report import ExactOnly
     qual = "persim.visuals.plot_diagrams"
     fi = project.function(qual)
-    rep.analysed(fi)
+    rep0.analysed(fi)
     for lifetime in (False, True):
         I = Interp(project, Config(nonempty={("rows", "S"), ("rows", "T")}, finite_inputs=set()))
         I.run(qual, {"diagrams": Seq([dgm_input("S"), dgm_input("T")]), "lifetime": Sc(sym.Bool(lifetime)),
                      "ax": ObjV(None, {}, tag="axes")})
+        rep = ExactOnly(rep0, I)   # a difference found on an inexact run is no finding
         tag = f"lifetime={lifetime}"
         sc = [ev for ev in I.log if ev["kind"] == "draw" and ev["method"] == "scatter"]
         if len(sc) != 2 and (not sc or I.lossy or I.unmodelled):
